@@ -171,7 +171,7 @@ func (tr *tracer) do(act Act) Outcome {
 	if tr.rpc == nil {
 		tr.rpc = map[int]string{}
 	}
-	if x := rpcName(act.Op); x != "" {
+	if x := rpcName(act); x != "" {
 		tr.rpc[act.S] = x
 	}
 	ev := map[string]any{"op": act.Op, "s": act.S, "reply": out.Reply, "calls": orEmpty(out.Calls), "rpc": tr.rpc[act.S]}
@@ -201,6 +201,9 @@ func (tr *tracer) do(act Act) Outcome {
 	}
 	o, ok := tr.observe()
 	ev["obs"], ev["st"] = ok, o
+	if strings.HasSuffix(tr.rpc[act.S], "-dup") && act.Op == "BeginRepl" {
+		ev["hint"] = "dup"
+	}
 	if ok {
 		tr.flag(o)
 		switch {
@@ -228,19 +231,36 @@ func (tr *tracer) do(act Act) Outcome {
 	tr.tw.Emit(ev)
 	tr.n++
 	tr.res.Eval("")
+	switch act.Op {
+	case "Finish", "Abort":
+		tr.res.Count("outcome:"+tr.rpc[act.S]+":"+out.Reply.K, 1)
+	}
+	if len(out.Calls) > 0 {
+		tr.res.Count("calls:"+strings.Join(out.Calls, ","), 1)
+	}
 	return out
 }
 
-func rpcName(op string) string {
-	for _, p := range []string{"Begin"} {
-		if len(op) > len(p) && op[:len(p)] == p {
-			return strings.ToLower(op[len(p):])
-		}
-	}
-	if op == "Truncated" {
+// rpcName names the exchange an action starts ("" for other actions).  A replenish request that
+// lists an account twice is named apart ("repl-dup": open finding C15-replenish-duplicates).
+func rpcName(a Act) string {
+	if a.Op == "Truncated" {
 		return "truncated"
 	}
-	return ""
+	if !strings.HasPrefix(a.Op, "Begin") {
+		return ""
+	}
+	n := strings.ToLower(a.Op[len("Begin"):])
+	if a.Op == "BeginRepl" {
+		seen := map[string]bool{}
+		for _, x := range a.Accs {
+			if seen[x] {
+				return n + "-dup"
+			}
+			seen[x] = true
+		}
+	}
+	return n
 }
 
 // RevState is a convenience for drivers.
